@@ -314,22 +314,31 @@ impl<K, V, A: Allocator> CaoHashMap<K, V, A> {
 
             let result = std::ptr::read(self.values.as_ptr().add(i));
             self.hashes_mut()[i] = 0;
+            self.count -= 1;
 
             // if the consecutive buckets are not empty, move them back, so lookups dont fail
             // and they aren't in their optimal position
             //
+            let capacity = self.capacity();
             let mut i = i; // track the last empty slot
-            let mut j = (i + 1) % self.capacity();
+            let mut j = (i + 1) % capacity;
             while self.hashes()[j] != 0 {
-                // if the jth item is not in its optimal bucket, then move it back to the empty
-                // slot
-                if (self.hashes()[j] % self.capacity() as u64) != j as u64 {
+                // the jth item may only move back to the empty slot if that does not place it
+                // before its optimal bucket, i.e. its optimal bucket is not (cyclically) in (i, j]
+                let optimal = (self.hashes()[j].wrapping_mul(2654435769) as usize) % capacity;
+                let stays = if i <= j {
+                    i < optimal && optimal <= j
+                } else {
+                    i < optimal || optimal <= j
+                };
+                if !stays {
                     self.hashes_mut()[i] = self.hashes()[j];
+                    self.hashes_mut()[j] = 0;
                     std::ptr::swap(self.keys.as_ptr().add(i), self.keys.as_ptr().add(j));
                     std::ptr::swap(self.values.as_ptr().add(i), self.values.as_ptr().add(j));
                     i = j;
                 }
-                j = (j + 1) % self.capacity();
+                j = (j + 1) % capacity;
             }
 
             return Some(result);
